@@ -247,7 +247,24 @@ impl Drop for Scratch {
         for p in self.unreadable.iter() {
             let _ = std::fs::set_permissions(p, std::fs::Permissions::from_mode(0o755));
         }
-        let _ = std::fs::remove_dir_all(&self.top);
+        if std::fs::remove_dir_all(&self.top).is_err() {
+            // a check that returned early may have left directories unreadable that are not in
+            // the list: open every real directory (links are not followed), then remove
+            fn open_up(p: &Path) {
+                if let Ok(m) = std::fs::symlink_metadata(p) {
+                    if m.is_dir() {
+                        let _ = std::fs::set_permissions(p, std::fs::Permissions::from_mode(0o755));
+                        if let Ok(rd) = std::fs::read_dir(p) {
+                            for e in rd.flatten() {
+                                open_up(&e.path());
+                            }
+                        }
+                    }
+                }
+            }
+            open_up(&self.top);
+            let _ = std::fs::remove_dir_all(&self.top);
+        }
     }
 }
 
